@@ -217,7 +217,7 @@ var jeTimes = []time.Time{
 	time.Date(1969, 12, 31, 23, 59, 59, 500000000, time.UTC),
 }
 
-var jeTimeEncs = []string{"iso8601", "rfc3339", "rfc3339nano", "epoch", "epochms", "epochns", "layout"}
+var jeTimeEncs = []string{"iso8601", "rfc3339", "rfc3339nano", "epoch", "epochms", "epochns", "layout", "rfc1123"}
 
 const jeLayout = "2006\"01\\02\t15:04:05.000 MST"
 
@@ -237,6 +237,8 @@ func timeEncoder(name string) zapcore.TimeEncoder {
 		return zapcore.EpochNanosTimeEncoder
 	case "layout":
 		return zapcore.TimeEncoderOfLayout(jeLayout)
+	case "rfc1123": // a harmless layout that prints the zone NAME (which the time's Location supplies)
+		return zapcore.TimeEncoderOfLayout(time.RFC1123)
 	case "noop":
 		return func(time.Time, zapcore.PrimitiveArrayEncoder) {}
 	}
@@ -254,6 +256,8 @@ func chkTime(t time.Time, enc string) func([]byte) string {
 		return chkStr(t.Format(time.RFC3339Nano))
 	case "layout":
 		return chkStr(t.Format(jeLayout))
+	case "rfc1123":
+		return chkStr(t.Format(time.RFC1123))
 	case "epoch":
 		return chkFloat(float64(t.UnixNano())/float64(time.Second), 64)
 	case "epochms":
@@ -930,6 +934,11 @@ func replayJSONMode(b jeBeh, seed int64, hostile bool, console bool) (out []jeFi
 		for _, sf := range segFields {
 			core = core.With(sf)
 		}
+		if seed%2 == 0 {
+			// history: the same derived core has already written an entry without call-site fields
+			core.Write(w.ent, nil)
+			sink.writes = nil
+		}
 		if err := core.Write(w.ent, callFields); err != nil {
 			add("C10", "C10/write-error", "core.Write returned %v", err)
 		}
@@ -961,6 +970,11 @@ func replayJSONMode(b jeBeh, seed int64, hostile bool, console bool) (out []jeFi
 			enc = enc.Clone()
 			for _, f := range sf {
 				f.AddTo(enc)
+			}
+		}
+		if seed%2 == 0 {
+			if b0, err := enc.EncodeEntry(w.ent, nil); err == nil {
+				b0.Free()
 			}
 		}
 		buf, err := enc.EncodeEntry(w.ent, callFields)
